@@ -87,6 +87,8 @@ static inline void gv_note_write(gv_atomic* a, uint64_t x, memory_order mo, bool
     } else if (was == now && (a->v & ~GV_LOCKBIT) == (x & ~GV_LOCKBIT)) {
       /* value-preserving RMW (e.g. fetch_or on an already locked word) */
       if (!is_rmw) g_bad_write = 1;
+    } else if (!was && !now && is_rmw) {
+      /* payload exchange on an UNLOCKED word by an RMW that observed it unlocked (PtrLock::CAS): allowed */
     } else {
       g_bad_write = 1;
     }
@@ -167,5 +169,6 @@ static inline uint64_t gv_exchange(gv_atomic* a, uint64_t x, memory_order mo)
 GV_ATOMIC_TYPED(uint64_t, u64)
 GV_ATOMIC_TYPED(int64_t, i64)
 GV_ATOMIC_TYPED(uint32_t, u32)
+GV_ATOMIC_TYPED(int, int)
 #define GV_GHOST_RESET (g_lin_count == 0 && !g_bad_write)
 #endif
